@@ -25,7 +25,11 @@ RULE = ('crash: real Simulation.save_results (pickle and HDF5, safe_write on) of
         'at least one save had completed before the crash. '
         'resume: GroundStateSearch (TwoSite/SingleSite DMRG, deterministic and convergence-controlled class) and '
         'RealTimeEvolution (TEBD, TwoSite/SingleSite TDVP, ExpMPO) with random L in 4..6, couplings, dt, N_steps, '
-        'order, chi_max (small, so truncation errors are non-zero), 2-4 checkpoints, pickle or HDF5; the file of every '
+        'order, chi_max (small, so truncation errors are non-zero), 2-4 checkpoints, pickle or HDF5; every run also has '
+        'three 8-site TwoSiteDMRG jobs whose options evolve during the run (chi_list with a late None, chi_list with '
+        'integers, N_sweeps_check=2 with/without chi_list; mixer off, min_sweeps=max_sweeps, fixed Lanczos tolerances; '
+        'compared at 1e-9 incl. bond-dimension series, final chi, sweep count) and a decaying/self-disabling mixer in '
+        'the convergence-controlled class; the file of every '
         'checkpoint is copied aside and the run resumed from each (plus one interruption through a real SIGINT); '
         'results dictionaries are diffed against the plain run and the measurement bookkeeping (indices, loop-counter '
         'tags, which step errors are in each eps_error) against the Lean loop machine. Non-trivial: a truncation '
@@ -89,16 +93,17 @@ def _run_corpus(ctx, res, pool, use_model=True):
 
 
 def _resume_job(case):
-    params = case['params']
+    params = c18_resume.fix_int_keys(case['params'])
     alg = params['algorithm_params']
     if case['kind'] == 'te':
         unit = alg['dt'] * alg['N_steps']
         n = int(round(params['final_time'] / unit))
     else:
-        unit, n = 1.0, alg['max_sweeps']
+        nsc = int(alg.get('N_sweeps_check', 1))
+        unit, n = float(nsc), alg['max_sweeps'] // nsc
     sig = case.get('checkpoint') if case.get('via') == 'SIGINT' else None
     return dict(kind=case['kind'], cls=case['cls'], engine=case['engine'], fmt=case['fmt'], n=n, unit=unit,
-                params=params, sigint=sig)
+                params=params, sigint=sig, schedule=case.get('schedule'))
 
 
 def run(ctx):
